@@ -562,7 +562,7 @@ const DIRECTED: [&str; 44] = [
 pub fn run(args: &Args) {
     let mut sink = Sink::new("C14", &args.out, &["Model.Rewrite"], args.seed, &args.tier);
     sink.shard_size = 60;
-    sink.rule("the same text analysed with one dictionary (tests/resources/lex.csv + numeral units, separators, katakana words; resources/char.def or tests/resources/char.def) without path-rewrite plugins and with a plugin chain; a second lexicon makes 4 / 四 / 9 / 億 common nouns, leaves ',' and '.' out (OOV separators inside numeral runs) and gives katakana words other parts of speech; every morpheme's reported surface()/begin()/end() must be the covered text, a merged one the union / concatenation of its parts, with the part of speech and OOV flag of the plugin that can have made the merge (JoinNumeric enableNormalize true/false, JoinKatakanaOov minLength 0/1/2/3/5/9, three OOV parts of speech, both orders, each alone); texts are concatenations of katakana dictionary words / katakana OOV pieces (incl. NOOOVBOW ァ) / digits, kanji digits, units, separators, well-formed and malformed numerals / other words, directed sequences first (separators at text edges, numerals next to katakana runs); Coq model of both loops run on the plugin-free path must equal the result with plugins and grouping_ok must hold on it; a Rust oracle re-checks boundary subset, union range, concatenated surface, prescribed part of speech, unchanged rest; non-trivial = at least one merge; extra stream with the NFKC input-text plugin (oracle only)");
+    sink.rule("the same text analysed with one dictionary (tests/resources/lex.csv + numeral units, separators, katakana words; resources/char.def or tests/resources/char.def) without path-rewrite plugins and with a plugin chain; a second lexicon makes 4 / 四 / 9 / 億 common nouns, leaves ',' and '.' out (OOV separators inside numeral runs) and gives katakana words other parts of speech; every morpheme's reported surface()/begin()/end() must be the covered text, a merged one the union / concatenation of its parts, with the part of speech and OOV flag of the plugin that can have made the merge (JoinNumeric enableNormalize true/false, JoinKatakanaOov minLength 0/1/2/3/5/9, three OOV parts of speech, both orders, each alone); texts are concatenations of katakana dictionary words / katakana OOV pieces (incl. NOOOVBOW ァ) / digits, kanji digits, units, separators, well-formed and malformed numerals / other words, the empty text, every piece alone and between blanks (paths of 0 / 1 / 2 tokens), pairs of pieces; directed sequences first (separators at text edges, numerals next to katakana runs); Coq model of both loops run on the plugin-free path must equal the result with plugins and grouping_ok must hold on it; a Rust oracle re-checks boundary subset, union range, concatenated surface, prescribed part of speech, unchanged rest; non-trivial = at least one merge; extra stream with the NFKC input-text plugin (oracle only)");
     let vs = variants(&args.work);
     if let Some(p) = &args.replay {
         let r: Value = serde_json::from_str(&std::fs::read_to_string(p).unwrap()).unwrap();
@@ -595,6 +595,25 @@ pub fn run(args: &Args) {
     termination_probe(&mut sink, &args.work, None, false);
     let plain: Vec<&Variant> = vs.iter().filter(|v| !v.input_plugin).collect();
     let nfkc: Vec<&Variant> = vs.iter().filter(|v| v.input_plugin).collect();
+    // path length as a dimension: the empty text, every piece as a text of its own (paths of one token, or of the few
+    // tokens of one piece), every piece between blanks, and pairs of pieces (paths of two tokens)
+    {
+        let mut k = 0usize;
+        let all: Vec<&str> = PIECES_KATA.iter().chain(PIECES_NUM.iter()).chain(PIECES_OTHER.iter()).cloned().collect();
+        for p in std::iter::once(&"").chain(all.iter()) {
+            for t in [p.to_string(), format!(" {}", p), format!("{} ", p)] {
+                for _ in 0..2 {
+                    run_case(&mut sink, plain[k % plain.len()], &t, "text:single_piece", false);
+                    k += 7;
+                }
+            }
+        }
+        for _ in 0..args.n(150, 3000) {
+            let t = format!("{}{}", rng.pick(&all[..]), rng.pick(&all[..]));
+            let v = *rng.pick(&plain);
+            run_case(&mut sink, v, &t, "text:two_pieces", false);
+        }
+    }
     for _ in 0..args.n(800, 20000) {
         let (t, tag) = gen_text(&mut rng, false);
         let v = *rng.pick(&plain);
